@@ -465,7 +465,102 @@ def rule_r5(chk, rid="C07-R5"):
     chk.ob(rid, "simultaneous._simulate.Inlay.simulate[every frame gets the snapshot]", ok, f"input_data_array={[unparse(v) for v in passed]}", sm.loc(lp), sure=True)
 
 
+def rule_r8(chk, rid="C07-R8"):
+    chk.rule(rid, "the impact of anticipated shocks on the state in column t is the sum over the shock columns s = t .. S of R[s-t] v[s], with S the "
+             "last column of the frame's window that holds an anticipated shock - whichever frame of a split simulation is running (frames "
+             "that start after the base start included): _simulate_anticipated_shock_values evaluated finitely with symbolic R[k] and v[s]",
+             floor=4, shape_independent=True)
+    from .. import fin
+    m = chk.repo.mod("irispie.fords.shock_simulators")
+    f = m.func("_simulate_anticipated_shock_values")
+    chk.saw(m, "_simulate_anticipated_shock_values")
+
+    class _Terms(fin.FinObj):
+        def __init__(self, items=()):
+            super().__init__(items=frozenset(items))
+        def __add__(self, o):
+            return _Terms(self.items | o.items) if isinstance(o, _Terms) else self if o == 0 else NotImplemented
+        __radd__ = __add__
+    class _Sym(fin.FinObj):
+        def __init__(self, kind, k):
+            super().__init__(kind=kind, k=k)
+        def __matmul__(self, o):
+            if self.kind == "R" and isinstance(o, _Sym) and o.kind == "v":
+                return _Terms([(self.k, o.k)])
+            raise fin.NotFinite("product other than R[k] @ v[s]")
+    class _Bools(fin.FinObj):
+        def __init__(self, vals):
+            super().__init__(vals=list(vals))
+        def tolist(self):
+            return list(self.vals)
+    class _Shocks(fin.FinObj):
+        def __init__(self, ncols, nonzero, cols=None):
+            super().__init__(ncols=ncols, nonzero=set(nonzero), cols=cols)
+        def __getitem__(self, key):
+            if not (isinstance(key, tuple) and len(key) == 2 and key[0] == slice(None)):
+                raise fin.NotFinite("shock array indexed other than [:, columns]")
+            c = key[1]
+            if isinstance(c, int) and not isinstance(c, bool):
+                if not 0 <= c < self.ncols:
+                    raise fin.Raised(f"column {c} outside the data")
+                return _Sym("v", c)
+            if isinstance(c, slice):
+                c = range(*c.indices(self.ncols))
+            return _Shocks(self.ncols, self.nonzero, cols=tuple(c))
+    def np_any(x, axis=None):
+        if isinstance(x, _Shocks) and x.cols is not None and axis == 0:
+            return _Bools(c in x.nonzero for c in x.cols)
+        raise fin.NotFinite("_np.any of something else")
+    class _RList(list):
+        pass
+    cases = []
+    # (number of periods, base columns, frame start column, simulation end column, columns with an anticipated shock)
+    for ncols, base, fstart, simend, shocks in ((10, (1, 8), 1, 8, {5}), (10, (1, 8), 4, 8, {7}), (10, (1, 8), 4, 8, {5, 6}), (12, (2, 9), 5, 9, {9}),
+                                                 (10, (1, 8), 3, 8, {1, 2}), (10, (1, 8), 6, 8, {6})):
+        cases.append((ncols, base, fstart, simend, shocks))
+    n = 0
+    for ncols, base, fstart, simend, shocks in cases:
+        key = f"fords.shock_simulators._simulate_anticipated_shock_values[frame {fstart}..{simend} of base {base[0]}..{base[1]}, shocks at {sorted(shocks)}]"
+        t0 = 100
+        asked = []
+        def expansion(solution, forward):
+            asked.append(forward)
+            return [_Sym("R", k) for k in range(forward + 1)]
+        ds = fin.FinObj(num_periods=ncols, periods=list(range(t0, t0 + ncols)), base_columns=tuple(range(base[0], base[1] + 1)),
+                        base_periods=list(range(t0 + base[0], t0 + base[1] + 1)), get_data_variant=lambda *a, **k: "data")
+        frame = fin.FinObj(start=t0 + fstart, simulation_end=t0 + simend, end=t0 + simend, first=fstart, simulation_last=simend,
+                           simulation_columns=tuple(range(fstart, simend + 1)))
+        model = fin.FinObj(_get_dynamic_solution_vectors=lambda *a, **k: fin.FinObj(anticipated_shock_values=("e1", "e2")),
+                           _gets_solution=lambda *a, **k: "solution")
+        ps = params(f)
+        try:
+            impact = fin.run_function(f, {ps[0]: model, ps[1]: ds, ps[2]: frame, "get_solution_expansion": expansion},
+                                      funcs={"extract_shock_values": lambda d, v: _Shocks(ncols, shocks), "_np.any": np_any})
+        except (fin.NotFinite, fin.Raised, IndexError, TypeError) as ex:
+            chk.undecided(rid, key, f"not finitely evaluable: {type(ex).__name__}: {ex}", m.loc(f))
+            continue
+        n += 1
+        window = [c for c in range(fstart, simend + 1)]
+        in_window = [c for c in shocks if fstart <= c <= simend]
+        bad = None
+        if in_window:
+            S = max(in_window)
+            for t in window:
+                want = frozenset((s_ - t, s_) for s_ in range(t, S + 1))
+                got = impact[t]
+                got = got.items if isinstance(got, _Terms) else frozenset() if got in (0, None) else None
+                if got != want:
+                    bad = (f"impact in column {t} sums {sorted(got) if got is not None else impact[t]} as (k, s) pairs R[k] v[s]; "
+                           f"expected s = {t}..{S} with k = s - {t}: {sorted(want)}")
+                    break
+        else:
+            if any(x is not None and not (isinstance(x, _Terms) and not x.items) and x != 0 for x in impact):
+                bad = "an impact is computed although no anticipated shock lies in the frame's window"
+        chk.ob(rid, key, bad is None, bad or f"every column of the window gets the sum of R[s-t] v[s] up to the last shock column", m.loc(f), sure=True)
+
+
 def run(chk):
+    chk.guard(rule_r8, chk)
     chk.guard(rule_r1, chk)
     chk.guard(rule_r2, chk)
     chk.guard(rule_r3, chk)
@@ -475,6 +570,10 @@ def run(chk):
     chk.guard(variants.apply, chk, "C07-R6", [("irispie.simultaneous._simulate", "Inlay.simulate")])
     from .. import unused as _unused
     chk.guard(_unused.apply, chk, "C07-R91")
+    from .. import basis as _basis
+    chk.guard(_basis.apply, chk, "C07-R9")
+    from .. import endpoints as _endpoints
+    chk.guard(_endpoints.apply, chk, "C07-R7", {"stacked_time", "fords", "dataslates", "frames", "plans", "simultaneous", "period_by_period"})
     from .. import args as _args
     chk.guard(_args.apply, chk, "C07-R90", {'fords', 'plans', 'stacked_time'}, 1)
     chk.assumptions = [
